@@ -178,7 +178,7 @@ PerMsg(c, o, m, L, ev) ==
   \cup (IF ev.e = "ack" /\ at = "when_saved"
            /\ ~( (saveE > 0) \/ (oc = "nores" /\ iEnd > 0) )
         THEN {"C02_NotEarly_saved"} ELSE {})
-  \cup (IF c.ackable /\ valid /\ hooksOk /\ ev.e = "cb_e" /\ endedOk /\ nAck # 1
+  \cup (IF c.ackable /\ valid /\ hooksOk /\ ev.e = "cb_e" /\ nAck # 1
         THEN {"C02_Once"} ELSE {})
   \cup (IF ~valid /\ nAck > 0 THEN {"C02_AckOfSkipped"} ELSE {})
   \cup (IF ev.e = "ack" /\ ev.x # m THEN {"C02_AckOfOtherMessage"} ELSE {})
@@ -203,9 +203,13 @@ PerMsg(c, o, m, L, ev) ==
              \cup (IF oc = "none" THEN {"C07_SavedBeforeEnd"} ELSE {})
         ELSE {})
   \cup (IF r.sb <= 1 THEN {} ELSE {"C07_ExactlyOne"})
-  \cup (IF valid /\ hooksOk /\ ev.e = "cb_e" /\ endedOk /\ oc # "none"
+  \cup (IF valid /\ hooksOk /\ ev.e = "cb_e" /\ oc # "none"
            /\ r.sb # (IF oc = "nores" THEN 0 ELSE 1)
         THEN {"C07_ExactlyOne"} ELSE {})
+  \cup (IF valid /\ hooksOk /\ ev.e = "cb_e" /\ ~endedOk THEN {"C07_ProcessingAborted"} ELSE {})
+  \cup (IF valid /\ hooksOk /\ ev.e = "cb_e" /\ MsgC(c, m).savefail /\ oc \notin {"none", "nores"}
+           /\ (~endedOk \/ (c.ackable /\ nAck # 1))
+        THEN {"C07_BackendFailureHarmless"} ELSE {})
   \cup (IF ev.e = "end" /\ ev.s = "cancel" /\ MsgC(c, m).timeout > 0
            /\ o.now # o.stT[m] + MsgC(c, m).timeout
         THEN {"C07_TimeoutEnforced"} ELSE {})
